@@ -3,6 +3,8 @@
 
 package gmtls
 
+import "crypto/cipher"
+
 // Verification hooks (build tag "verif" only): thin wrappers exposing message codecs,
 // session tickets and the record-layer half connections to the property harness in /verif.
 
@@ -94,4 +96,18 @@ func VerifDecryptTicket(cfg *Config, ticket []byte) (ok bool, vers, suite uint16
 		return false, 0, 0, nil, false
 	}
 	return true, s.vers, s.cipherSuite, s.masterSecret, s.usedOldKey
+}
+
+// VerifGMSuiteRecordAEAD returns the record-protection AEAD that the GM/T 0024 cipher suite table assigns to suite id,
+// keyed the way the record layer keys it (key, 4-byte implicit nonce), together with the table's key / MAC / IV lengths;
+// aead is nil for suites that are unknown or protect records with a block cipher and a MAC.
+func VerifGMSuiteRecordAEAD(id uint16, key, fixedNonce []byte) (aead cipher.AEAD, keyLen, macLen, ivLen int, known bool) {
+	suite := mutualCipherSuiteGM([]uint16{id}, id)
+	if suite == nil {
+		return nil, 0, 0, 0, false
+	}
+	if suite.aead != nil && len(key) == suite.keyLen {
+		aead = suite.aead(key, fixedNonce)
+	}
+	return aead, suite.keyLen, suite.macLen, suite.ivLen, true
 }
